@@ -63,6 +63,7 @@ func faultFidelityPass(tier string, seed uint64, cov map[string]any) (int, []str
 	defer syscall.Umask(old)
 
 	scen, skipped, planRuns, sigRuns, opsCompared := 0, 0, 0, 0, 0
+	var anomalies []string
 	kindsSeen := map[string]int{}
 	dirNo := 0
 	// realRun materialises the initial world in a fresh directory and runs gxz under ptstep.
@@ -245,29 +246,46 @@ func faultFidelityPass(tier string, seed uint64, cov map[string]any) (int, []str
 		// therefore done under an unprivileged uid.)
 		for k := 0; k < sigPerCase && len(kinds) > 0; k++ {
 			at := pr.Range(1, len(kinds))
-			srr, err := realRun(w0, args, "-s", strconv.Itoa(at))
-			if err != nil {
-				return 2, []string{"INFRA: running the real gxz under ptstep: " + err.Error()}
-			}
-			rw, err := worldFromDir(srr.dir)
-			if err != nil {
-				return 2, []string{"INFRA: " + err.Error()}
-			}
-			res := RunResult{Exit: srr.exit, Killed: srr.killed, Stdout: srr.stdout, Stderr: srr.stderr, World: rw}
-			if srr.killed {
-				res.Exit = 0
-			}
-			var v *sim.Violation
-			for _, jk := range js {
-				if v = jk.judge(res, simos.Plan{SigAt: at}, "real-sigint"); v != nil {
-					break
+			// the schedule of a real run is the Go scheduler's: an invariant
+			// failure counts as a fidelity failure only if it shows again
+			// within five repetitions; a one-off is recorded as an anomaly
+			fails, tries := 0, 1
+			var firstDiag []string
+			for t := 0; t < tries; t++ {
+				srr, err := realRun(w0, args, "-s", strconv.Itoa(at))
+				if err != nil {
+					return 2, []string{"INFRA: running the real gxz under ptstep: " + err.Error()}
 				}
+				rw, err := worldFromDir(srr.dir)
+				if err != nil {
+					return 2, []string{"INFRA: " + err.Error()}
+				}
+				res := RunResult{Exit: srr.exit, Killed: srr.killed, Stdout: srr.stdout, Stderr: srr.stderr, World: rw}
+				if srr.killed {
+					res.Exit = 0
+				}
+				var v *sim.Violation
+				for _, jk := range js {
+					if v = jk.judge(res, simos.Plan{SigAt: at}, "real-sigint"); v != nil {
+						break
+					}
+				}
+				if v != nil {
+					fails++
+					if firstDiag == nil {
+						_, firstDiag = diag(fmt.Sprintf("real SIGINT at call %d breaks an invariant that every simulated interleaving kept: %s %s", at, v.Class, v.Detail), rw, res, srr)
+						tries = 6
+					}
+				}
+				os.RemoveAll(srr.dir)
+				sigRuns++
 			}
-			if v != nil {
-				return diag(fmt.Sprintf("real SIGINT at call %d breaks an invariant that every simulated interleaving kept: %s %s", at, v.Class, v.Detail), rw, res, srr)
+			if fails > 1 {
+				return 2, append(firstDiag, fmt.Sprintf("  (seen in %d of %d repetitions)", fails, tries))
 			}
-			os.RemoveAll(srr.dir)
-			sigRuns++
+			if fails == 1 {
+				anomalies = append(anomalies, strings.Join(firstDiag, " / "))
+			}
 			kindsSeen["real-sigint"]++
 		}
 		scen++
